@@ -31,14 +31,19 @@ def _snapshot(i):
     return (i.fields["grid"], i.fields["time"], i.fields["mask"], tuple(sorted(i.fields["meta"].items(), key=lambda kv: kv[0])))
 
 
-class ExchInterp(FinamInterp):
-    def __init__(self, repo, accepts=True, delivered=None, get_info_result=None):
-        super().__init__(repo)
-        self.accepts_script = accepts
-        self.delivered = delivered
-        self.get_info_result = get_info_result
-        self.accept_calls = []  # (receiver, incoming, downstream flag)
-        self.requests = []  # infos sent to the source
+class ExchMixin:
+    """Vocabulary of the metadata exchange; mixed into the interpreters of rules that need an
+    input / adapter whose info and grid transform were set up by the real exchange code."""
+
+    accepts_script = True
+    delivered = None
+    get_info_result = None
+    same_grid = False
+
+    def _exch_state(self):
+        if not hasattr(self, "accept_calls"):
+            self.accept_calls = []  # (receiver, incoming, downstream flag)
+            self.requests = []  # infos sent to the source
 
     # symbols standing for grids / times are plain truthy values
     def decide(self, cond, node):
@@ -75,6 +80,7 @@ class ExchInterp(FinamInterp):
         return super().isinstance(v, klass, node)
 
     def call_hook(self, fv, args, kwargs, node, mod):
+        self._exch_state()
         if isinstance(fv, Sym) and fv.op == "accepts":
             recv = fv.args[0].obj
             acc = self.repo.method("Info", "accepts")
@@ -106,16 +112,52 @@ class ExchInterp(FinamInterp):
             self.requests.append(args[0] if args else kwargs.get("info"))
             return self.delivered
         if isinstance(fv, Sym) and fv.op == "get_transform_to":
-            return Sym("transform", fv.args[0], args[0])
+            return None if self.same_grid else Sym("transform", fv.args[0], args[0])
         if isinstance(fv, Closure) and getattr(fv.func, "name", "") == "_get_info" and self.get_info_result is not None:
             self.requests.append(args[0] if args else kwargs.get("info"))
             return self.get_info_result
         return super().call_hook(fv, args, kwargs, node, mod)
 
 
+class ExchInterp(ExchMixin, FinamInterp):
+    def __init__(self, repo, accepts=True, delivered=None, get_info_result=None):
+        super().__init__(repo)
+        self.accepts_script = accepts
+        self.delivered = delivered
+        self.get_info_result = get_info_result
+        self._exch_state()
+
+
+def linked_input(repo, it, static=False, same_grid=False, src=None):
+    """An Input as the real code leaves it after construction, linking and the metadata
+    exchange: constructed by the partial evaluation of its constructors, linked through its
+    `source` setter, info and grid transform set by an abstract run of exchange_info.  No
+    private attribute is named here.  `it` must mix in ExchMixin.  Returns (input, source stub,
+    request info, delivered info)."""
+    from ..absbase import seed_from_init
+    icls = repo.cls("Input")
+    me = Obj(cls=icls, label="Input")
+    req = xinfo("req", G2, T2, U2)
+    deliv = xinfo("src", G1, T1, U1, mask=Sym("M", "src"))
+    seed_from_init(it, icls, me, {"name": "in", "info": req, "static": static})
+    me.fields["logger"] = Logger(label="logger")
+    src = src if src is not None else Obj(label="source", markers={"IOutput", "IAdapter"}, fields={"logger_name": "src", "name": "src"})
+    setter = repo.resolve(icls, "source", "setter")
+    if setter is None:
+        raise AnalysisError("Input.source has no setter")
+    it.run(setter, [src], self_obj=me)
+    it.delivered, it.same_grid, it.accepts_script = deliv, same_grid, True
+    it.run(repo.resolve(icls, "exchange_info", "method"), [], self_obj=me)
+    return me, src, req, deliv
+
+
 G1, G2 = Sym("G", "own"), Sym("G", "req")
 T1, T2 = Sym("T", "own"), Sym("T", "req")
 U1, U2 = Sym("U", "own"), Sym("U", "req")
+
+
+def _ints(o):
+    return {k: v for k, v in o.fields.items() if isinstance(v, int) and not isinstance(v, bool)}
 
 
 def _run(it, f, args, self_obj, kwargs=None):
@@ -131,9 +173,18 @@ def r16x_output_get_info(repo, sink):
     worst, cases = None, 0
 
     def mk(own, static):
+        from ..absbase import seed_from_init
         o = Obj(cls=ocls, label="Output")
-        o.fields.update(_output_info=own, _out_infos_exchanged=0, _static=static, is_static=static, name="out", _name="out", logger=Logger(label="logger"))
+        seeder = ExchInterp(repo)
+        seed_from_init(seeder, ocls, o, {"name": "out", "info": None, "static": static})
+        o.fields["logger"] = Logger(label="logger")
+        if own is not None:
+            seeder.run(repo.resolve(ocls, "push_info", "method"), [own], self_obj=o)
         return o
+
+    def counted(o, before):
+        """How often the exchange was counted: the growth of the output's integer counters."""
+        return sum(v - before.get(k, 0) for k, v in _ints(o).items() if v != before.get(k, 0))
 
     # no info yet
     it = ExchInterp(repo)
@@ -145,12 +196,13 @@ def r16x_output_get_info(repo, sink):
     own = xinfo("own", G1, T1, U1)
     before = _snapshot(own)
     o = mk(own, False)
+    ints0 = _ints(o)
     it = ExchInterp(repo, accepts=False)
     got = _run(it, f, [xinfo("req", G2, T2, U2)], o)
     cases += 1
     if got != ("raise", "FinamMetaDataError"):
         worst = worst or f"a request the own info does not accept gives {got!r} instead of FinamMetaDataError"
-    elif o.fields["_out_infos_exchanged"] != 0 or _snapshot(own) != before:
+    elif counted(o, ints0) != 0 or _snapshot(own) != before:
         worst = worst or "a rejected request is counted as exchanged / changes the own info"
     # accepted requests: unset fields are filled from the request or refused
     for og, ot, ou, rg, rt, ru, static in itertools.product((G1, None), (T1, None), (U1, None), (G2, None), (T2, None), (U2, None, "missing"), (False, True)):
@@ -160,6 +212,7 @@ def r16x_output_get_info(repo, sink):
         if ru == "missing":
             del req.fields["meta"]["units"]
         o = mk(own, static)
+        ints0 = _ints(o)
         it = ExchInterp(repo, accepts=True)
         got = _run(it, f, [req], o)
         refuse = (og is None and rg is None) or (ot is None and rt is None and not static) or (ou is None and ru in (None, "missing"))
@@ -173,7 +226,7 @@ def r16x_output_get_info(repo, sink):
         if refuse:
             if got != ("raise", "FinamMetaDataError"):
                 worst = worst or f"{desc}: a field that nobody provides must be refused with FinamMetaDataError, got {got!r}"
-            elif o.fields["_out_infos_exchanged"] != 0:
+            elif counted(o, ints0) != 0:
                 worst = worst or f"{desc}: the refused exchange is counted"
             continue
         want = (og or rg, ot if ot is not None else rt, ou or ru)
@@ -183,8 +236,8 @@ def r16x_output_get_info(repo, sink):
         have = (own.fields["grid"], own.fields["time"], own.fields["meta"].get("units"))
         if have != want:
             worst = worst or f"{desc}: completed info has (grid, time, units) = {have!r}, expected {want!r} (own values kept, unset ones taken from the request)"
-        elif o.fields["_out_infos_exchanged"] != 1:
-            worst = worst or f"{desc}: the exchange is counted {o.fields['_out_infos_exchanged']} times"
+        elif counted(o, ints0) != 1:
+            worst = worst or f"{desc}: the exchange is counted {counted(o, ints0)} times"
     sink.check(worst is None, "R15", "get_info:table", f,
                ok=f"{cases} scripted requests: no info -> FinamNoDataError; conflict -> FinamMetaDataError, nothing counted; unset fields filled from the "
                   "request or refused; own values never overwritten; counted once",
@@ -198,8 +251,21 @@ def r16x_input_exchange(repo, sink):
     worst, cases = None, 0
 
     def mk(own, exchanged=False):
+        from ..absbase import seed_from_init
         o = Obj(cls=icls, label="Input")
-        o.fields.update(_input_info=own, _in_info_exchanged=exchanged, _source=Obj(label="source"), _transform=None, name="in", _name="in", logger=Logger(label="logger"))
+        seeder = ExchInterp(repo)
+        seed_from_init(seeder, icls, o, {"name": "in", "info": own, "static": False})
+        o.fields["logger"] = Logger(label="logger")
+        setter = repo.resolve(icls, "source", "setter")
+        seeder.run(setter, [Obj(label="source", markers={"IOutput", "IAdapter"}, fields={"logger_name": "src", "name": "src"})], self_obj=o)
+        if exchanged:
+            # a previous successful exchange, performed by the real code
+            seeder.delivered = xinfo("src0", G1, T1, U1)
+            first = xinfo("req0", G2, T2, U2)
+            if own is None:
+                seeder.run(f, [first], self_obj=o)
+            else:
+                seeder.run(f, [], self_obj=o)
         return o
 
     deliv = xinfo("src", G1, T1, U1, mask=Sym("M", "src"), extra={"foo": Sym("U", "foo")})
@@ -225,8 +291,11 @@ def r16x_input_exchange(repo, sink):
         got = _run(it, f, [None if via_own else req], o)
         if got != ("raise", "FinamMetaDataError"):
             worst = worst or f"delivered info conflicts with the request: expected FinamMetaDataError, got {got!r}"
-        elif o.fields["_in_info_exchanged"]:
-            worst = worst or "a refused exchange is marked as done"
+        else:
+            it2 = ExchInterp(repo, accepts=True, delivered=deliv)
+            again = _run(it2, f, [None if via_own else req], o)
+            if again[0] != "ret":
+                worst = worst or f"after a refused exchange a new attempt raises {again[1]}: the refused exchange is marked as done"
     # accepted
     for via_own, rg, rt, ru in itertools.product((False, True), (G2, None), (T2, None), (U2, None)):
         cases += 1
@@ -245,7 +314,7 @@ def r16x_input_exchange(repo, sink):
             worst = worst or (f"{desc}: the request must check the delivered info once, as incoming from upstream; seen "
                               f"{[(a.label, getattr(b, 'label', b), c) for a, b, c in it.accept_calls]}")
             continue
-        stored = o.fields["_input_info"]
+        stored = _prop(repo, it, o, "info")
         if not isinstance(stored, XInfo):
             worst = worst or f"{desc}: no info stored"
             continue
@@ -256,17 +325,42 @@ def r16x_input_exchange(repo, sink):
                               "the delivered ones otherwise")
         elif stored is deliv or _snapshot(deliv) != (G1, T1, deliv.fields["mask"], (("foo", Sym("U", "foo")), ("units", U1))):
             worst = worst or f"{desc}: the source's info object is shared / modified instead of copied"
-        elif o.fields["_in_info_exchanged"] is not True:
-            worst = worst or f"{desc}: the exchange is not marked as done"
+        elif _run(ExchInterp(repo, accepts=True, delivered=deliv), f, [None if via_own else req], o) != ("raise", "FinamMetaDataError"):
+            worst = worst or f"{desc}: the exchange is not marked as done (a second exchange is not refused)"
         elif got[1] is not stored:
             worst = worst or f"{desc}: exchange_info returns {got[1]!r}, not the info the input holds"
-        elif o.fields["_transform"] != Sym("transform", G1, stored.fields["grid"]):
-            worst = worst or f"{desc}: the grid transform is {o.fields['_transform']!r}, expected source grid -> input grid"
+        else:
+            # whichever attribute holds it: exactly one transform, from the delivered grid to the input's grid
+            trs = [v for v in o.fields.values() if isinstance(v, Sym) and v.op == "transform"]
+            if trs != [Sym("transform", G1, stored.fields["grid"])]:
+                worst = worst or f"{desc}: the grid transform kept by the input is {trs!r}, expected one from the source grid to the input's grid"
     sink.check(worst is None, "R15", "exchange_info:table", f,
                ok=f"{cases} scripted exchanges: refusals raise FinamMetaDataError before the source is asked; the request checks the delivered info "
                   "(upstream direction); the input holds the delivered info overridden by the requested fields; transform source grid -> input grid",
                bad=worst or "")
     sink.floor("R15", "Input.exchange_info scripted exchanges", cases, 20)
+
+
+def _prop(repo, it, o, name):
+    g = repo.resolve(o.cls, name, "getter")
+    if g is None:
+        raise AnalysisError(f"{o.cls.name}.{name} is not a property")
+    return it.run(g, [], self_obj=o)
+
+
+def _adapter(repo, cls, linked=False):
+    from ..absbase import seed_from_init
+    o = Obj(cls=cls, label=cls.name)
+    it = ExchInterp(repo)
+    seed_from_init(it, cls, o, {})
+    o.fields.update(logger=Logger(label="logger"))
+    o.fields.setdefault("name", "ad")
+    if linked:
+        setter = repo.resolve(cls, "source", "setter")
+        if setter is None:
+            raise AnalysisError(f"{cls.name}.source has no setter")
+        it.run(setter, [Obj(label="source", markers={"IOutput", "IAdapter"}, fields={"logger_name": "src", "name": "src"})], self_obj=o)
+    return o
 
 
 def r16x_adapter_plumbing(repo, sink):
@@ -277,19 +371,18 @@ def r16x_adapter_plumbing(repo, sink):
         f = repo.method(cls.name, "get_info")
         D = xinfo("delivered", G1, T1, U1)
         req = xinfo("req", G2, T2, U2)
-        o = Obj(cls=cls, label=cls.name)
-        o.fields.update(_output_info=None, _input_info=None, initial_time=None, name="ad", _name="ad", logger=Logger(label="logger"))
+        o = _adapter(repo, cls)
         it = ExchInterp(repo, get_info_result=D)
         got = _run(it, f, [req], o)
         why = None
         if got != ("ret", D) or got[1] is not D:
             why = f"returns {got!r} instead of the result of _get_info"
-        elif o.fields["_output_info"] is not D:
-            why = "does not keep the result of _get_info as its output info"
+        elif _prop(repo, it, o, "info") is not D:
+            why = "does not keep the result of _get_info as its output info (property `info`)"
         elif len(it.requests) != 1 or it.requests[0] is not req:
             why = "does not hand the consumer's request to _get_info exactly once"
-        elif cls is tcls and o.fields["initial_time"] != T1:
-            why = f"records initial_time {o.fields['initial_time']!r} instead of the time of the exchanged info"
+        elif cls is tcls and o.fields.get("initial_time") != T1:
+            why = f"records initial_time {o.fields.get('initial_time')!r} instead of the time of the exchanged info"
         sink.check(why is None, "R16", f"adapter-get_info:{cls.name}", f,
                    ok="get_info stores and returns the result of _get_info" + (" and takes the start time from it" if cls is tcls else ""),
                    bad=f"{cls.name}.get_info {why}")
@@ -297,24 +390,22 @@ def r16x_adapter_plumbing(repo, sink):
     f = repo.method("Adapter", "exchange_info")
     worst = None
     for name, arg in (("no request", None), ("request is not an Info", {"grid": G2})):
-        o = Obj(cls=acls, label="Adapter")
-        o.fields.update(_output_info=None, _input_info=None, _source=Obj(label="source"), name="ad", _name="ad", logger=Logger(label="logger"))
+        o = _adapter(repo, acls, linked=True)
         it = ExchInterp(repo, delivered=xinfo("src", G1, T1, U1))
         got = _run(it, f, [arg], o)
         if got != ("raise", "FinamMetaDataError") or it.requests:
             worst = worst or f"{name}: expected FinamMetaDataError before the source is asked, got {got!r}"
     D = xinfo("src", G1, T1, U1)
     req = xinfo("req", G2, T2, U2)
-    o = Obj(cls=acls, label="Adapter")
-    o.fields.update(_output_info=None, _input_info=None, _source=Obj(label="source"), name="ad", _name="ad", logger=Logger(label="logger"))
+    o = _adapter(repo, acls, linked=True)
     it = ExchInterp(repo, delivered=D)
     got = _run(it, f, [req], o)
     if got[0] != "ret" or got[1] is not D:
         worst = worst or f"returns {got!r} instead of what the source delivered"
     elif len(it.requests) != 1 or it.requests[0] is not req:
         worst = worst or "does not forward the request to the source exactly once"
-    elif o.fields["_input_info"] is not D:
-        worst = worst or "does not record the delivered info as its input info"
+    elif _prop(repo, it, o, "in_info") is not D:
+        worst = worst or "does not record the delivered info as its input info (property `in_info`)"
     sink.check(worst is None, "R16", "adapter-exchange_info", f,
                ok="exchange_info refuses a missing / non-Info request, forwards the request upstream once, records and returns the delivered info",
                bad=f"Adapter.exchange_info: {worst}")
